@@ -348,6 +348,11 @@ pub fn build_realfs_plan(rng: &mut Rng, seed: u64, c: &Corpus) -> SimPlan {
                     jobs.push(variant);
                     if rng.chance(1, 2) {
                         jobs.push(a.clone());
+                        if rng.chance(1, 2) {
+                            // the same job twice in a row: the one situation in
+                            // which the server object itself may be reused
+                            jobs.push(a.clone());
+                        }
                     }
                 }
             }
